@@ -10,11 +10,44 @@ import shutil
 from vlib import Inconclusive, add_tlc_cov, log, require_clean, run_tlc, run_tlc_shards, stage_spec
 
 
+def lexer_conformance(ctx):
+    """The real lexer's token stream (hook VerifLex) vs the character-level model Lexer.tla."""
+    import conf
+    out = ctx.sub("lex")
+    r = ctx.vh(["lexobs", "-out", out, "-seed", ctx.seed, "-shards", 16, "-ntexts", ctx.pick(3000, 40000), "-prefixes", ctx.pick(600, 6000),
+                "-corpus", conf.CORPUS, "-nrand", ctx.pick(30, 200), "-nexpr", ctx.pick(5, 30)])
+    log(r.stdout.strip().splitlines()[-1])
+    shards = sorted(glob.glob(os.path.join(out, "lex-*.json")))
+    results = run_tlc_shards(ctx, "ConfLexer.tla", "ConfLexer.cfg", shards, timeout=ctx.pick(600, 3000), extra=["-continue"])
+    require_clean(results)
+    add_tlc_cov(ctx, results, "real lexer token streams vs the character-level model (Lexer.tla / ConfLexer.tla)")
+    ntexts = 0
+    seen = 0
+    for sf, res in results:
+        obs = json.load(open(sf))
+        ntexts += len(obs)
+        for name, vars_, txt in res.violations:
+            if seen >= 5:
+                break
+            seen += 1
+            o = obs[int(vars_["m"]) - 1]
+            text = "".join(o["text"])
+            key = "lexer:%r" % text
+            d = ctx.replay_dir(key)
+            open(os.path.join(d, "input.y"), "w").write(text)
+            json.dump({"property": "C10", "kind": "lexer", "obs": o}, open(os.path.join(d, "meta.json"), "w"), indent=1)
+            ctx.violation(key, d, "the lexer's tokens for %r differ from the character-level model Lexer.tla: real %s" % (
+                text, [(t["kind"], t["val"]) for t in o["toks"]][:12]))
+    ctx.cov["lexer_texts"] = ntexts
+    ctx.cov["evaluations"] += ntexts
+
+
 def run(ctx, replay):
     if replay:
         meta = json.load(open(os.path.join(replay, "meta.json")))
         raise Inconclusive("replay: `harness filerender -seed %s -n %s -spec %s -layout %s` reproduces the text" % (
             meta["seed"], meta["n"], meta["spec"], ",".join(map(str, meta["layout"]))))
+    lexer_conformance(ctx)
     out = ctx.sub("file")
     n = ctx.pick(16, 120)
     r = ctx.vh(["fileobs", "-phase", "specs", "-n", n, "-out", out, "-seed", ctx.seed])
